@@ -1,10 +1,13 @@
 """OKL translation-validation pipeline: translate generated kernels with every back end (worker w_okl), assemble
 test translation units (reference loops + translated code + emulation shims), compile with the host compiler, run,
 and parse per-case results.  Used by C17-C22."""
+import json
 import os
 import re
 import subprocess
 import threading
+
+from hypothesis import given, seed, settings, strategies as st, HealthCheck, Phase
 from concurrent.futures import ThreadPoolExecutor
 
 import vlib
@@ -265,3 +268,235 @@ def run_exe(exe, names, ntuples, timeout=180, env=None):
                  "process exited abnormally (rc=%s) before reporting: %s" % (rc, out[-300:].replace("\n", " | "))))
         pending = pending[pending.index(culprit) + 1:]
     return results
+
+
+class Spec:
+    """what a translation-validation property provides to run_tv"""
+    modes = MODES
+    level = "translation_validation"
+    quick, thorough = (5, 24), (200, 40)
+    rule, assume = "", []
+
+    def program(self, rnd): raise NotImplementedError
+    def render(self, desc, name): raise NotImplementedError
+    def valid(self, desc): return True
+    def nontrivial(self, desc): return True
+    def simplify(self, desc): return []
+    def classes(self, desc): return []
+    def known_class(self, desc, known_ids): return None        # generator-level exclusion (syntactic class)
+    def known_filter(self, k, mode, txt, known_ids): return None  # result-level exclusion
+
+
+# ------------------------------------------------------------------------------------------------
+def run_batch(tr, wd, kernels, tag, modes=MODES, known_filter=None, excl=None):
+    """translate + build + run a list of Kernel objects for all modes.  Returns list of failure dicts."""
+    excl = excl if excl is not None else {}
+    reqs = [(k.name, mode, k.okl, "") for k in kernels for mode in modes]
+    res = tr.translate_many(reqs)
+    failures = []
+    info = {"translated": 0, "rejected": 0}
+
+    def one_mode(mode):
+        fails = []
+        items = []
+        for k in kernels:
+            r = res[(k.name, mode)]
+            if "crash" in r:
+                fails.append({"kernel": k.name, "mode": mode, "what": r["crash"]})
+            elif not r["ok"]:
+                fails.append({"kernel": k.name, "mode": mode, "what": "translator rejected a valid kernel: " + re.sub(r"\x1b\[[0-9;]*m", "", r["diag"])[-300:].replace("\n", " | ")})
+            else:
+                items.append((k, r))
+        if not items:
+            return fails
+        base = os.path.join(wd, "%s_%s" % (tag, mode))
+        exe, log = compile_tu(assemble(mode, items), base, mode)
+        groups = [items]
+        if exe is None:
+            # isolate the case(s) that do not compile
+            groups = []
+            for j, it in enumerate(items):
+                e1, l1 = compile_tu(assemble(mode, [it]), base + "_%d" % j, mode)
+                if e1 is None:
+                    errs = [x for x in l1.splitlines() if "error" in x][:3]
+                    fails.append({"kernel": it[0].name, "mode": mode, "what": "translated code does not compile: " + " | ".join(errs)[:400]})
+                else:
+                    groups.append([it])
+        for gi, g in enumerate(groups):
+            exe_g = exe if exe is not None else base + "_%d.exe" % items.index(g[0])
+            names = [k.name for k, _ in g]
+            env = dict(os.environ)
+            env["OMP_NUM_THREADS"] = "4"
+            rr = run_exe(exe_g, names, {k.name: len(k.calls) for k, _ in g}, env=env)
+            for k, _ in g:
+                bad = [(t, txt) for t, ok, txt in rr.get(k.name, []) if not ok]
+                if not rr.get(k.name):
+                    bad = [(-1, "no result reported")]
+                if bad and known_filter:
+                    # failures that belong to a listed known finding (decided from the result line) are excluded and counted
+                    kept = []
+                    for t, txt in bad:
+                        kid = known_filter(k, mode, txt)
+                        if kid:
+                            excl[kid] = excl.get(kid, 0) + 1
+                        else:
+                            kept.append((t, txt))
+                    bad = kept
+                if bad:
+                    t, txt = bad[0]
+                    vals = k.calls[t] if 0 <= t < len(k.calls) else "?"
+                    fails.append({"kernel": k.name, "mode": mode, "what": "args=%s: %s" % (vals, txt[:400])})
+        return fails
+    from concurrent.futures import ThreadPoolExecutor
+    with ThreadPoolExecutor(max_workers=len(modes)) as ex:
+        for f in ex.map(one_mode, modes):
+            failures.extend(f)
+    return failures
+
+
+def reduce_failure(tr, wd, spec, desc, mode, tagbase, known_filter=None):
+    """by-hand shrinking of a failing program descriptor on the failing mode only"""
+    cur = desc
+    budget = 40
+    changed = True
+    n = 0
+    while changed and budget > 0:
+        changed = False
+        for cand in spec.simplify(cur):
+            if not spec.valid(cand):
+                continue
+            budget -= 1
+            n += 1
+            k = spec.render(cand, "r%d" % n)
+            if run_batch(tr, wd, [k], "%s_r%d" % (tagbase, n), modes=[mode], known_filter=known_filter):
+                cur = cand
+                changed = True
+                break
+            if budget <= 0:
+                break
+    return cur
+
+
+def run_tv(spec, prop, tier, replay, t0):
+    wd = vlib.workdir(prop)
+    out = vlib.Outcome()
+    tr = Translator(wd, nworkers=8)
+    modes_all = spec.modes
+    rep_dir = os.path.join(vlib.VERIF, "replays", prop)
+    os.makedirs(rep_dir, exist_ok=True)
+    findings = vlib.known_findings(prop)
+    known_ids = set(f.id for f in findings)
+
+    def kfilter(k, mode, txt):
+        return spec.known_filter(k, mode, txt, known_ids) if known_ids else None
+    try:
+        def replay_file(path):
+            d = json.load(open(path))
+            k = spec.render(d["desc"], "rp")
+            modes = [d["mode"]] if d.get("mode") else modes_all
+            kf = None if d.get("known") else kfilter
+            return run_batch(tr, wd, [k], "rp%d" % (abs(hash(path)) % 10000), modes=modes, known_filter=kf)
+        if replay:
+            fails = replay_file(os.path.abspath(replay))
+            for f in fails:
+                print("  %s: %s" % (f["mode"], f["what"]))
+            if fails:
+                print("VIOLATION property=%s replay=%s" % (prop, os.path.abspath(replay)))
+                return 1
+            print("REPLAY-PASS")
+            return 0
+        # saved replays: known findings must still fail (else note), regression inputs must pass
+        known_files = {}
+        for f in findings:
+            p = os.path.normpath(os.path.join(vlib.VERIF, f.replay))
+            known_files[p] = f
+            if os.path.exists(p):
+                if replay_file(p):
+                    print("KNOWN-FINDING: property=%s %s [%s]" % (prop, f.text, f.id), flush=True)
+                    out.known_printed.append(f.id)
+                else:
+                    out.notes.append("known finding %s no longer reproduces" % f.id)
+        nreg = 0
+        for fn in sorted(os.listdir(rep_dir)):
+            p = os.path.normpath(os.path.join(rep_dir, fn))
+            if not fn.endswith(".json") or fn.startswith("violation_") or p in known_files:
+                continue
+            nreg += 1
+            fl = replay_file(p)
+            if fl:
+                out.violations.append((p, "regression input fails: %s: %s" % (fl[0]["mode"], fl[0]["what"][:300])))
+        out.extra["regression_replays"] = nreg
+
+        nbatches, bsize = spec.quick if tier == "quick" else spec.thorough
+        state = {"n": 0, "batches": 0, "nt": set(), "fail": [], "excluded": {}}
+
+        def excluded(desc):
+            kid = spec.known_class(desc, known_ids) if known_ids else None
+            if kid:
+                state["excluded"][kid] = state["excluded"].get(kid, 0) + 1
+                return True
+            return False
+
+        @seed(vlib.derive(vlib.seed(), prop))
+        @settings(max_examples=nbatches + 1, database=None, deadline=None, derandomize=False,
+                  suppress_health_check=list(HealthCheck), phases=[Phase.generate])
+        @given(st.randoms(use_true_random=False))
+        def campaign(rnd):
+            descs = [spec.program(rnd) for _ in range(bsize)]
+            if all(d == descs[0] for d in descs):
+                return            # Hypothesis' first, all-minimal example: 25 copies of one program; not counted
+            b = state["batches"]
+            state["batches"] += 1
+            kernels = []
+            for i, d in enumerate(descs):
+                if not spec.valid(d) or excluded(d):
+                    continue
+                k = spec.render(d, "k%d_%d" % (b, i))
+                kernels.append(k)
+                if spec.nontrivial(d):
+                    state["nt"].add(k.okl.split("{", 1)[1])
+                for cls in spec.classes(d):
+                    out.classes[cls] = out.classes.get(cls, 0) + 1
+                if len(out.samples) < 5 and i == 3:
+                    out.samples.append(k.okl)
+            state["n"] += len(kernels)
+            fails = run_batch(tr, wd, kernels, "b%d" % b, modes=modes_all, known_filter=kfilter, excl=state["excluded"])
+            byname = {k.name: k for k in kernels}
+            for f in fails:
+                f["desc"] = byname[f["kernel"]].meta
+                state["fail"].append(f)
+        campaign()
+        out.evaluations = state["n"]
+        out.nontrivial = state["nt"]
+        out.excluded = state["excluded"]
+        # triage: one replay per failure category (host / launcher back ends x kind of failure); the first 3 are reduced
+        def category(f):
+            fam = "host" if f["mode"] in ("serial", "openmp") else "launcher"
+            w = f["what"]
+            for key in ("does not compile", "rejected", "crashed", "hang", "huge", "not a multiple", "overrun", "signal=", "exited abnormally"):
+                if key in w:
+                    return fam, key
+            return fam, "wrong iteration set"
+        seen = {}
+        for f in state["fail"]:
+            c = category(f)
+            seen.setdefault(c, []).append(f)
+        for ci, (c, fl) in enumerate(sorted(seen.items())):
+            f = fl[0]
+            desc = f["desc"]
+            if ci < 3:
+                desc = reduce_failure(tr, wd, spec, desc, f["mode"], "red%d" % ci, known_filter=kfilter)
+            path = os.path.join(rep_dir, "violation_seed%d_%d.json" % (vlib.seed(), ci))
+            json.dump({"desc": desc, "mode": f["mode"], "what": f["what"], "okl": spec.render(desc, "rp").okl}, open(path, "w"), indent=1)
+            out.violations.append((path, "%s: %s  [%d failing (kernel, back end) pairs in this category: %s/%s]"
+                                   % (f["mode"], f["what"][:300], len(fl), c[0], c[1])))
+        out.extra["programs"] = state["n"]
+        out.extra["backends"] = modes_all
+        out.extra["disagreements_checked"] = len(state["fail"])
+        out.extra["engine"] = "Hypothesis-driven generator (st.randoms), %d batches x %d programs; host compiler g++ as reference semantics" % (nbatches, bsize)
+        return vlib.finish(prop, tier, spec.level, out, spec.rule, t0, spec.assume)
+    finally:
+        tr.close()
+        vlib.cleanup(wd)
+
+
